@@ -135,6 +135,9 @@ fn wall_step_rules(h: &Hist, props: &[&str], o: &mut OracleOut) {
         max_wall: i128,
     }
     let labels: Vec<&str> = ["C03", "C04"].into_iter().filter(|p| props.contains(p)).collect();
+    if props.contains(&"C05") {
+        wall_step_reclaim_rule(h, o);
+    }
     if labels.is_empty() {
         return;
     }
@@ -211,6 +214,40 @@ fn wall_step_rules(h: &Hist, props: &[&str], o: &mut OracleOut) {
                 }
             }
             _ => {}
+        }
+    }
+}
+
+/// C05 when the wall clock is stepped back: an entry whose TTL has elapsed on the wall clock is
+/// reclaimed within one bucket width plus one cleanup interval - counted from the later of
+/// "the wall clock reached its deadline" and "the last backward step" (from then on the clock
+/// only moves forward, and every tick sweeps all buckets up to the current second).  Judged on
+/// the physical snapshot of quiescent checkpoints (creation instant and TTL as stored).
+fn wall_step_reclaim_rule(h: &Hist, o: &mut OracleOut) {
+    let interval = if h.plan.cfg.cleanup_ns > 0 { h.plan.cfg.cleanup_ns } else { h.plan.cfg.cleanup_ms * 1_000_000 } as i128;
+    let mut steps: Vec<(u64, u64, i128)> = Vec::new(); // (seq, mono instant, skew after the step)
+    let mut skew: i128 = 0;
+    for op in h.ops.iter().filter(|x| x.returned()) {
+        if let Op::WallStepBack { ns } = op.op {
+            skew -= ns as i128;
+            steps.push((op.ret_seq.unwrap(), op.ret_now, skew));
+        }
+    }
+    if h.ops.iter().any(|x| matches!(x.op, Op::WallStepBack { .. }) && !x.returned()) {
+        return;
+    }
+    for cp in h.cps.iter().filter(|c| c.quiescent) {
+        let Some(entries) = &cp.snap.entries else { continue };
+        let (skew_now, last_step) = steps.iter().rev().find(|s| s.0 < cp.seq).map_or((0i128, 0u64), |s| (s.2, s.1));
+        for e in entries.iter().filter(|e| e.ttl_ns > 0) {
+            let deadline_wall = e.created_ns as i128 + e.ttl_ns as i128;
+            let due_mono = (deadline_wall - skew_now).max(last_step as i128);
+            let bound = due_mono + 1_000_000_000 + 2 * interval + 1_000_000;
+            if (cp.now as i128) > bound {
+                o.violations.push(violk("C05", "R-wall-step-never-reclaimed", cp.seq, e.index, "an entry whose TTL elapsed on the wall clock is still resident long after the clock was last stepped back", format!("checkpoint {} at mono {}: entry index {} created at wall {} ttl {} ns still resident; wall now {}, last backward step at mono {}, due by mono {} (cleanup interval {} ns)", cp.id, cp.now, e.index, e.created_ns, e.ttl_ns, cp.now as i128 + skew_now, last_step, bound, interval)));
+            } else {
+                *o.probes.entry("wall_step_resident_ttl_entry_judged".to_string()).or_default() += 1;
+            }
         }
     }
 }
